@@ -410,6 +410,22 @@ func (fg *FuncGen) call(v *ssa.Call, c *ssa.CallCommon, instr ssa.Instruction) {
 				env.vars[n] = rs[i]
 			}
 		}
+		skolem := map[string]TTerm{}
+		env.lookup = func(name string) (TTerm, bool) {
+			if t, ok := skolem[name]; ok {
+				return t, true
+			}
+			if strings.HasPrefix(name, "log") {
+				srt := "(Array Int Val)"
+				if strings.HasSuffix(name, "e") {
+					srt = "(Array Int Iface)"
+				}
+				t := fg.declareTmp("sk_"+name, srt, nil)
+				skolem[name] = t
+				return t, true
+			}
+			return TTerm{}, false
+		}
 		for _, en := range con.Ensures {
 			t := env.Tr(en.E)
 			if fg.err != nil {
@@ -427,6 +443,7 @@ func (fg *FuncGen) call(v *ssa.Call, c *ssa.CallCommon, instr ssa.Instruction) {
 		}
 	}
 	fg.setCallResults(v, rs)
+	fg.recordLog(v, rs)
 	for _, cb := range backs {
 		fg.store(cb.p, fg.load(&Ptr{Kind: "obj", Ref: cb.tmp, T: cb.t}))
 	}
